@@ -7,6 +7,11 @@ PID = "C04"
 ENTRIES_P = ["Execute", "ExecuteSelectedRules", "ExecuteSelectedRulesWithControl"]
 
 
+# a rule can fail in several ways: a failing statement, a failing return expression, a panic raised inside the evaluation of a
+# condition / of a return expression (recovered at the rule's entry point), a stray break
+FAILK = ["fail", "panic1", "retfail", "panic2", "fail", "brk"]
+
+
 def make_cases(rng, tier, diff_here):
     cases = []
     sal_pool = [-2, 0, 0, 3, 7]
@@ -16,7 +21,7 @@ def make_cases(rng, tier, diff_here):
             sals = list(combo)
             rng.shuffle(sals)
             for fbits in range(2 ** k):
-                rules = [{"name": NAMES[i], "sal": sals[i], "kind": "fail" if (fbits >> i) & 1 else ("ret" if i % 2 else "plain"),
+                rules = [{"name": NAMES[i], "sal": sals[i], "kind": FAILK[(i + k + fbits) % len(FAILK)] if (fbits >> i) & 1 else ("ret" if i % 2 else "plain"),
                           "stop": False, "ver": 100 + i} for i in range(k)]
                 for b in (True, False):
                     cases.append(base("Execute", rules, b=b, prev=rng.choice(["fresh", "stale"])))
@@ -62,7 +67,7 @@ def make_cases(rng, tier, diff_here):
     n_rand = 200 if tier == "quick" else 5000
     pool = ENTRIES_P + diff_here * 9
     for _ in range(n_rand):
-        cases.append(rand_case(rng, rng.choice(pool), maxk=7 if tier == "quick" else 10))
+        cases.append(rand_case(rng, rng.choice(pool), kinds=("plain", "ret", "fail", "panic1", "retfail"), weights=(3, 3, 1, 1, 1), maxk=7 if tier == "quick" else 10))
     return cases
 
 
